@@ -79,6 +79,8 @@ def scenarios(mod, rng):
     if mod == 'rbasex':
         c = dict(shape=0, origin=0, rmax=0, order=2, odd=False, wid=0, direction='inverse', reg=0, out=0, bd=None)
         S.append([('call', dict(c, out=0, seed=sd())), ('call', dict(c, out=3, seed=sd()))])
+        # (9, 11) image, rmax=3: out='same' needs a 5 x 6 quadrant, out='full' a 4 x 4 one
+        S.append([('call', dict(c, shape=1, rmax=1, out=0, seed=sd())), ('call', dict(c, shape=1, rmax=1, out=3, seed=sd()))])
         S.append([('call', dict(c, origin=1, out=1, seed=sd())), ('call', dict(c, origin=1, out=0, seed=sd()))])
         S.append([('call', dict(c, wid=1, seed=sd())), ('mutw', 1), ('call', dict(c, wid=1, seed=sd()))])
         S.append([('call', dict(c, rmax=2, seed=sd())), ('call', dict(c, seed=sd()))])
